@@ -301,7 +301,7 @@ struct ScriptedInf : ob::InformedSampler
     }
 };
 
-static int modeReplay(const std::string &rowsPath, const std::string &tracePath, const std::string &callsPath)
+static int modeReplay(const std::string &rowsPath, const std::string &tracePath, const std::string &callsPath, int repsMul = 1)
 {
     unsigned long long seed = vt::envSeed();
     ompl::RNG::setSeed((std::uint_fast32_t)(mix(seed, 4242) % 2000000000ULL + 1));
@@ -542,7 +542,7 @@ static int modeReplay(const std::string &rowsPath, const std::string &tracePath,
         for (int mask = 1; mask < (1 << K0); ++mask)
             for (const char *ovc : {"max", "minmax"})
                 for (unsigned N : {1u, 2u, 3u, 4u, 6u, 20u})
-                    for (int rep = 0; rep < (K0 >= 3 ? 3 : 6); ++rep)
+                    for (int rep = 0; rep < (K0 >= 3 ? 3 : 6) * repsMul; ++rep)
                     {
                         std::string ov = ovc;
                         std::vector<int> can(K0);
